@@ -67,6 +67,333 @@ def _num(u):
     return u.get_metadata().unit_number
 
 
+class _KnownClass(Exception):
+    """ends the judgement of a path whose violation belongs to an ACTIVE known finding"""
+
+
+def _require_unless_known(ctx, cond, label, finding, **info):
+    """ctx.require, except that a failure belonging to the class of a known finding which the
+    driver found still reproducing (params['known_active']) is not reported again: the class is
+    excluded from the search (DESIGN 2, known findings), the path counts as judged, and the number
+    of excluded paths is kept in the notes.  Witness replays run without known_active, so the
+    finding itself is re-established on every run."""
+    if cond is True:
+        ctx.require(True, label)
+        return
+    if finding in (ctx.params.get("known_active") or ()) and not ctx.perturb:
+        ctx.note("path-in-class-of-known-finding:" + finding)
+        raise _KnownClass(finding)
+    ctx.require(cond, label, **info)
+
+
+def _judged(fn):
+    def harness(ctx):
+        try:
+            return fn(ctx)
+        except _KnownClass:
+            ctx.require(True, "excluded-known-class")
+    harness.__name__ = fn.__name__
+    harness.__doc__ = fn.__doc__
+    return harness
+
+
+# =======================================================================================
+# K1  unit algebra of every content type
+# =======================================================================================
+_ALPHA = ["", " ", "A%d", "B%d\n", "\n C%d"]          # empty, blank, token, token + newline, padded token
+JOIN_FORMATS = {"PdfContent", "PptxContent", "OdpContent", "XlsxContent", "OdsContent", "EpubContent",
+                "HtmlContent", "PlainTextContent", "EmailContent", "OdgContent", "OdfContent"}
+
+
+def _content_types():
+    """every dataclass of the serialisation registry that offers iterate_units + get_full_text"""
+    from sharepoint2text.parsing.extractors import serialization as ser
+    reg = ser._get_type_registry()
+    return {n: c for n, c in sorted(reg.items())
+            if callable(getattr(c, "iterate_units", None)) and callable(getattr(c, "get_full_text", None))
+            and not n.endswith("Interface")}
+
+
+def _pick(ctx, name, i, size=None):
+    k = ctx.choice(name, size or len(_ALPHA))
+    t = _ALPHA[k]
+    return (t % i if "%d" in t else t), (("ABC"[k - 2] + str(i)) if k >= 2 else None)
+
+
+def _text_chars(ctx, name, n):
+    """symbolic text: TAB LF VT FF CR and printable ASCII (the separators FS..US, which python
+    also strips, are left out - CharStr.strip does not model them)"""
+    t = ctx.fresh_chars(name, n, 9, 126)
+    if not ctx.concrete:
+        _assume_all(ctx, [z3.Or(c.z <= 13, c.z >= 32) for c in t.c])
+    return t
+
+
+def _stored_numbers(ctx, n, name):
+    """stored slide / chapter numbers: symbolic, strictly increasing, >= 1 (the documented shape)"""
+    nums, pre = [], []
+    for k in range(n):
+        v = ctx.fresh_int(f"{name}{k}", 1, 50)
+        pre.append(v > (nums[-1] if nums else 0))
+        nums.append(v)
+    _assume_all(ctx, pre)
+    return nums
+
+
+def _build(ctx, dt, tname, n):
+    """-> (content, expected unit numbers, [(exact unit text or None, token or None)], exact?)"""
+    src = []
+    if tname == "PdfContent":
+        pages = []
+        for i in range(n):
+            t, tok = _pick(ctx, f"text{i}", i)
+            pages.append(dt.PdfPage(text=t, images=[dt.PdfImage(index=1)] if t == "" and ctx.flag(f"img{i}") else []))
+            src.append((t, tok))
+        return dt.PdfContent(pages=pages), list(range(1, n + 1)), src
+    if tname == "PptxContent":
+        nums = _stored_numbers(ctx, n, "slide_number")
+        slides = []
+        for i in range(n):
+            t, tok = _pick(ctx, f"text{i}", i)
+            fm = ([dt.PptxFormula(latex=f"F{i}", is_display=ctx.flag(f"disp{i}"))]
+                  if i == 0 and ctx.flag(f"formula{i}") else [])
+            slides.append(dt.PptxSlide(slide_number=nums[i], base_text=t, text=t, formulas=fm))
+            src.append((None if fm else t.strip(), tok))
+        return dt.PptxContent(slides=slides), nums, src
+    if tname in ("OdpContent", "PptContent"):
+        nums = _stored_numbers(ctx, n, "slide_number")
+        slides = []
+        for i in range(n):
+            title, tok = _pick(ctx, f"title{i}", i, 3)
+            body = [f"D{i}"] if ctx.flag(f"body{i}") else []
+            if tname == "OdpContent":
+                slides.append(dt.OdpSlide(slide_number=nums[i], title=title, body_text=body))
+            else:
+                slides.append(dt.PptSlideContent(slide_number=nums[i], title=title or None, body_text=body))
+            src.append(("\n".join(([title] if title else []) + body), tok))
+        cls = dt.OdpContent if tname == "OdpContent" else dt.PptContent
+        return cls(slides=slides), nums, src
+    if tname in ("XlsContent", "XlsxContent", "OdsContent"):
+        sheets = []
+        for i in range(n):
+            t, tok = _pick(ctx, f"text{i}", i)
+            name = f"S{i}" if ctx.flag(f"named{i}") else ""
+            if tname == "XlsContent":
+                sheets.append(dt.XlsSheet(name=name, text=t, data=[{"h": 1}] if t == "" and ctx.flag(f"data{i}") else []))
+                src.append((t.strip(), tok))
+            elif tname == "XlsxContent":
+                sheets.append(dt.XlsxSheet(name=name, text=t))
+                src.append((None, tok))
+            else:
+                sheets.append(dt.OdsSheet(name=name, text=t))
+                src.append((None, tok))
+        if tname == "XlsContent":
+            return dt.XlsContent(sheets=sheets, full_text="\n".join(x.text for x in sheets)), list(range(1, n + 1)), src
+        cls = dt.XlsxContent if tname == "XlsxContent" else dt.OdsContent
+        return cls(sheets=sheets), list(range(1, n + 1)), src
+    if tname == "EpubContent":
+        nums = _stored_numbers(ctx, n, "chapter_number")
+        chapters = []
+        for i in range(n):
+            t, tok = _pick(ctx, f"text{i}", i)
+            chapters.append(dt.EpubChapter(chapter_number=nums[i], href=f"c{i}.xhtml", text=t))
+            src.append((t, tok))
+        return dt.EpubContent(chapters=chapters), nums, src
+    # ---- single-unit formats: exactly one unit numbered 1 whatever the state
+    t, tok = _pick(ctx, "text", 0)
+    one = [(t.strip(), tok)]
+    if tname == "HtmlContent":
+        return dt.HtmlContent(content=t), [1], one
+    if tname == "PlainTextContent":
+        return dt.PlainTextContent(content=t), [1], one
+    if tname == "OdgContent":
+        return dt.OdgContent(full_text=t), [1], one
+    if tname == "OdfContent":
+        return dt.OdfContent(full_text=t), [1], one
+    if tname == "EmailContent":
+        h, htok = _pick(ctx, "html", 1)
+        c = dt.EmailContent(from_email=dt.EmailAddress(), body_plain=t, body_html=h)
+        # documented: plain body if there is one, else the HTML body, else an empty unit
+        exp = (t.strip(), tok) if t.strip() else ((None, htok) if h else ("", None))
+        return c, [1], [exp]
+    if tname == "DocxContent":
+        return dt.DocxContent(full_text=t), [1], [(None, tok)]
+    if tname == "OdtContent":
+        return dt.OdtContent(full_text=t), [1], [(None, tok)]
+    if tname == "DocContent":
+        return dt.DocContent(main_text=t), [1], [(None, tok)]
+    return None
+
+
+def k1_algebra(ctx):
+    dt = _dt()
+    tname = ctx.params["type"]
+    types = _content_types()
+    if tname == "<registry>":
+        known = MULTI | SINGLE | {"RtfContent"}
+        ctx.require(set(types) == known, "content-type-without-unit-model",
+                    unmodelled=sorted(set(types) - known), vanished=sorted(known - set(types)))
+        return
+    N = ctx.params["N"]
+    n = ctx.choice("n", N + 1) if tname in MULTI else 1
+    built = _build(ctx, dt, tname, n)
+    content, exp_nums, src = built
+    try:
+        units = list(content.iterate_units())
+        full = content.get_full_text()
+    except Exception as e:
+        units = None
+        ctx.fail("unit-accessors-raised", exc=type(e).__name__, msg=str(e)[:100])
+    m = len(units)
+    ctx.require(m == len(src), "unit-count-differs-from-source-elements", units=m, elements=len(src))
+    if ctx.perturb == "expect_zero_based":
+        exp_nums = [x - 1 for x in exp_nums]
+    for k, u in enumerate(units):
+        ctx.require(_num(u) == exp_nums[k], "unit-number-is-not-the-source-position", unit=k)
+    for k, u in enumerate(units):
+        exact, tok = src[k]
+        txt = u.get_text()
+        if exact is not None:
+            ctx.require(txt == exact, "unit-text-differs-from-source-element", unit=k, got=txt, expected=exact)
+        for j, (_, tk) in enumerate(src):
+            if tk is None:
+                continue
+            if j == k:
+                ctx.require(txt.count(tk) == 1, "unit-text-lost-or-duplicated", unit=k, token=tk, got=txt)
+            else:
+                ctx.require(tk not in txt, "text-of-another-element-in-unit", unit=k, token=tk, got=txt)
+    if tname in JOIN_FORMATS:
+        ref = "\n".join(u.get_text() for u in units).strip()
+        if ctx.perturb == "expect_untrimmed_join":
+            ref = "\n".join(u.get_text() for u in units)
+        ctx.require(full == ref, "full-text-is-not-the-trimmed-join-of-units", got=full, expected=ref)
+    else:
+        # formats that keep their own full text: every token of every element still shows up, in order
+        pos = -1
+        for _, tk in src:
+            if tk is not None:
+                ctx.require(full.find(tk) > pos, "full-text-misses-or-reorders-unit-text", token=tk, got=full)
+                pos = full.find(tk)
+
+
+MULTI = {"PdfContent", "PptxContent", "OdpContent", "PptContent", "XlsContent", "XlsxContent", "OdsContent",
+         "EpubContent"}
+SINGLE = {"HtmlContent", "PlainTextContent", "OdgContent", "OdfContent", "EmailContent", "DocxContent",
+          "OdtContent", "DocContent"}
+
+
+def k1_rtf(ctx):
+    """RtfContent: page texts are SYMBOLIC strings; the code's own strip()/truth tests decide which
+    pages count as blank.  Reading checked (DESIGN): every non-blank page yields exactly one unit
+    numbered by the page's 1-based position, blank pages may be skipped, nothing else appears."""
+    dt = _dt()
+    n = ctx.params["n"]
+    L = ctx.params.get("page_len", 2)
+    mode = ctx.params.get("mode", "pages")
+    if mode == "pages":
+        pages = [_text_chars(ctx, f"page{i}", L) for i in range(n)]
+        content = dt.RtfContent(pages=pages, full_text="ignored" if n and ctx.flag("has_full_text") else "")
+        try:
+            units = list(content.iterate_units())
+        except Exception as e:
+            units = None
+            ctx.fail("unit-accessors-raised", exc=type(e).__name__, msg=str(e)[:100])
+        k = 0
+        last = 0
+        for i, pg in enumerate(pages):
+            # my reading of blank: nothing but white space (checked character by character)
+            blank = True
+            for ch in _cs(pg).c:
+                if not _b(S.CharStr._disj([_mk(ch == w) for w in (32, 9, 10, 11, 12, 13)])):
+                    blank = False
+                    break
+            if ctx.perturb == "expect_blank_pages_kept":
+                blank = False
+            if blank:
+                continue
+            ctx.require(k < len(units), "non-blank-page-has-no-unit", page=i + 1)
+            num = _num(units[k])
+            ctx.require(num == i + 1, "unit-number-is-not-the-source-position", page=i + 1, got=num)
+            ctx.require(num > last, "unit-numbers-repeat-or-decrease", got=num)
+            last = num
+            txt = units[k].get_text()
+            ctx.require(txt is pg or txt == pg, "unit-text-differs-from-source-element", page=i + 1)
+            k += 1
+        ctx.require(k == len(units), "unit-without-a-page", units=len(units), non_blank=k)
+        return
+    # no page list: the whole text (or, without it, the non-blank paragraphs) is one unit numbered 1
+    t, tok = _pick(ctx, "text", 0)
+    picked = [_pick(ctx, f"para{i}", i + 1) for i in range(n)]
+    content = dt.RtfContent(full_text=t, paragraphs=[dt.RtfParagraph(text=x) for x, _ in picked])
+    units = list(content.iterate_units())
+    full = content.get_full_text()
+    ctx.require(len(units) <= 1, "flowing-text-without-pages-is-not-one-unit", units=len(units))
+    toks = [tok] if t else [tk for _, tk in picked]
+    toks = [x for x in toks if x]
+    if toks:
+        ctx.require(len(units) == 1 and _num(units[0]) == 1, "text-without-unit", tokens=toks)
+        for tk in toks:
+            ctx.require(units[0].get_text().count(tk) == 1, "unit-text-lost-or-duplicated", token=tk)
+            ctx.require(tk in full, "full-text-misses-or-reorders-unit-text", token=tk)
+
+
+def k1_email(ctx):
+    """EmailContent with SYMBOLIC bodies: the strip in __post_init__ and the truth tests of
+    iterate_units decide; always exactly one unit numbered 1 (plain body, else HTML body, else empty)"""
+    dt = _dt()
+    L = ctx.params.get("body_len", 2)
+    plain = _text_chars(ctx, "plain", ctx.params.get("plain_len", L))
+    html = _text_chars(ctx, "html", ctx.params.get("html_len", L))
+    content = dt.EmailContent(from_email=dt.EmailAddress(), body_plain=plain, body_html=html)
+    units = list(content.iterate_units())
+    ctx.require(len(units) == 1, "unit-count-differs-from-source-elements", units=len(units))
+    ctx.require(_num(units[0]) == 1, "unit-number-is-not-the-source-position")
+    txt = _cs(units[0].get_text())
+    p = _cs(plain).strip()
+    if ctx.perturb == "expect_html_preferred" and len(html):
+        p = _cs("")
+    if len(p):
+        ctx.require(len(txt) == len(p) and _b(txt == p), "unit-text-differs-from-source-element", which="plain")
+    elif len(html):
+        ctx.require(len(txt) == len(html) and _b(txt == _cs(html)), "unit-text-differs-from-source-element", which="html")
+    else:
+        ctx.require(len(txt) == 0, "unit-text-differs-from-source-element", which="empty")
+
+
+def _k1(ctx):
+    t = ctx.params["type"]
+    if t == "RtfContent":
+        return k1_rtf(ctx)
+    if t == "EmailContent*":
+        return k1_email(ctx)
+    return k1_algebra(ctx)
+
+
+def _k1_parts(tier):
+    N = 3 if tier == "quick" else 4
+    parts = [{"type": "<registry>"}]
+    for t in sorted(MULTI):
+        parts.append({"type": t, "N": N})
+    for t in sorted(SINGLE):
+        parts.append({"type": t, "N": 1})
+    for n in range(0, (3 if tier == "quick" else 4) + 1):
+        parts.append({"type": "RtfContent", "n": n, "page_len": 2 if tier == "quick" or n > 3 else 3, "mode": "pages"})
+    parts.append({"type": "RtfContent", "n": 2, "mode": "flow"})
+    for a, b in ((0, 0), (0, 2), (2, 0), (2, 2), (3, 1)) + (((4, 2),) if tier == "thorough" else ()):
+        parts.append({"type": "EmailContent*", "plain_len": a, "html_len": b})
+    return parts
+
+
+def _k1_targets():
+    dt = _dt()
+    out = [dt._join_unit_text]
+    for n, c in _content_types().items():
+        out += [c.iterate_units, c.get_full_text]
+    out += [dt.PptxSlide.get_text, dt.OdpSlide.text_combined.fget, dt.PptSlideContent.text_combined.fget,
+            dt.EmailContent.__post_init__]
+    return out
+
+
 # =======================================================================================
 # K2  heading-section units
 # =======================================================================================
@@ -212,6 +539,19 @@ def _unambiguous_style(ctx, style):
     return z3.Or(z3.Not(is_h), z3.And(is_h, z3.Or(*shapes)) if shapes else z3.BoolVal(False))
 
 
+def _unambiguous_odt_style(ctx, style):
+    """one formula: a table-cell style (begins with 'Table_20_') or a name without 'Table' in it"""
+    if ctx.concrete:
+        return True
+    c = [S._as_int_term(x) for x in style.c]
+
+    def at(pos, word):
+        if pos + len(word) > len(c):
+            return z3.BoolVal(False)
+        return z3.And(*[c[pos + k] == ord(ch) for k, ch in enumerate(word)])
+    return z3.Or(at(0, "Table_20_"), z3.Not(z3.Or(*[at(p, "Table") for p in range(len(c))])))
+
+
 def _text_from_kind(kind, tok):
     return ["", tok, " ", " " + tok + " \n"][kind]
 
@@ -228,7 +568,7 @@ def _chain(heads, h):
     return out[::-1]
 
 
-def _section_oracle(ctx, items, units, allow_heading_like_in_body=False):
+def _section_oracle(ctx, items, units, allow_heading_like_in_body=False, extra_info=None):
     """items: source paragraphs {'i','kind' heading|body|skip,'level','tok' (None = blank),'pb'}
     units: [(number, text, heading_path)] as observed.  Written from the property text:
       numbers 1..m; without headings one unit holding everything; with headings every non-blank
@@ -305,14 +645,23 @@ def _section_oracle(ctx, items, units, allow_heading_like_in_body=False):
         pbv = None
         if cls == "section" and it.get("pb") is not None:
             pbv = _b(it["pb"])
-        ctx.require(False, "body-text-lost", cls=cls, para=it["i"], page_break=pbv)
+        fid = None
+        if ctx.params.get("fmt") == "docx":
+            fid = {"before-first-heading": "C03-docx-text-before-first-heading-lost",
+                   "under-heading-without-text": "C03-docx-text-under-heading-without-text-lost",
+                   "section": "C03-docx-page-break-paragraph-text-lost" if pbv is True else None}[cls]
+        _require_unless_known(ctx, False, "body-text-lost", fid, cls=cls, para=it["i"], page_break=pbv,
+                              units=[[u[0], u[1], list(u[2])] for u in units], **(extra_info or {}))
 
     # a heading whose section produced no unit and that no later unit names in its path
     for h in heads:
         if h["tok"]:
-            ctx.require(any(h["tok"] in p for p in paths) or
-                        (allow_heading_like_in_body and any(h["tok"] in t for t in texts)),
-                        "heading-text-in-no-unit", para=h["i"], heading=h["tok"])
+            _require_unless_known(
+                ctx, any(h["tok"] in p for p in paths) or
+                (allow_heading_like_in_body and any(h["tok"] in t for t in texts)),
+                "heading-text-in-no-unit",
+                "C03-heading-of-empty-section-in-no-unit" if ctx.params.get("fmt") in ("odt", "doc") else None,
+                para=h["i"], heading=h["tok"])
 
 def k2_docx(ctx):
     dt = _dt()
@@ -323,7 +672,8 @@ def k2_docx(ctx):
     paras, raw, pre = [], [], []
     for i in range(n):
         style = None
-        if ctx.flag(f"styled{i}"):
+        mask = ctx.params.get("styled_mask")
+        if (mask[i] == "1") if mask else ctx.flag(f"styled{i}"):
             style = ctx.fresh_chars(f"style{i}", L, 32, 126)
             if not ctx.params.get("style_ws"):
                 pre.append(style[0:1] != " ")
@@ -338,7 +688,7 @@ def k2_docx(ctx):
     _assume_all(ctx, pre)
     tables, tanch, images = [], [], []
     if anchor != "none" and n:
-        a = ctx.choice("anchor_para", n)
+        a = ctx.params["anchor_para"] if "anchor_para" in ctx.params else ctx.choice("anchor_para", n)
         if anchor == "table":
             tables, tanch = [[["c"]]], [a]
         else:
@@ -359,7 +709,39 @@ def k2_docx(ctx):
             ctx.assume(False)
         items.append({"i": i, "kind": cls, "level": lev, "tok": tok, "pb": pb})
     obs = [(_num(u), u.get_text(), u.get_metadata().heading_path) for u in units]
-    _section_oracle(ctx, items, obs)
+    extra_info = {}
+    if ctx.concrete and anchor == "none":
+        extra_info["read_docx_units"] = _docx_public(raw)
+    _section_oracle(ctx, items, obs, extra_info=extra_info)
+
+
+def _docx_public(raw):
+    """replay only (information for the replay record): the same paragraphs as a real .docx through
+    sharepoint2text.read_docx"""
+    import zipfile
+    from xml.sax.saxutils import escape, quoteattr
+    try:
+        import sharepoint2text
+        w = "http://schemas.openxmlformats.org/wordprocessingml/2006/main"
+        body = ""
+        for i, (style, tok, pb) in enumerate(raw):
+            ppr = f"<w:pPr><w:pStyle w:val={quoteattr(style)}/></w:pPr>" if style is not None else ""
+            brk = "<w:r><w:lastRenderedPageBreak/></w:r>" if pb else ""
+            run = f"<w:r><w:t>{escape(tok)}</w:t></w:r>" if tok else ""
+            body += f"<w:p>{ppr}{brk}{run}</w:p>"
+        buf = io.BytesIO()
+        with zipfile.ZipFile(buf, "w") as z:
+            z.writestr("[Content_Types].xml", '<?xml version="1.0"?><Types xmlns="http://schemas.openxmlformats.org/'
+                       'package/2006/content-types"><Default Extension="xml" ContentType="application/xml"/><Default '
+                       'Extension="rels" ContentType="application/vnd.openxmlformats-package.relationships+xml"/></Types>')
+            z.writestr("_rels/.rels", f'<?xml version="1.0"?><Relationships xmlns="{_PKG_REL_NS}"><Relationship Id="rId1" '
+                       f'Type="{_REL_PREFIX}officeDocument" Target="word/document.xml"/></Relationships>')
+            z.writestr("word/document.xml", f'<?xml version="1.0"?><w:document xmlns:w="{w}"><w:body>{body}</w:body></w:document>')
+        buf.seek(0)
+        doc = next(sharepoint2text.read_docx(buf, "x.docx"))
+        return [[_num(u), u.get_text(), list(u.get_metadata().heading_path)] for u in doc.iterate_units()]
+    except Exception as e:
+        return "not available: %s: %s" % (type(e).__name__, str(e)[:80])
 
 
 def k2_odt(ctx):
@@ -368,18 +750,20 @@ def k2_odt(ctx):
     L = ctx.params.get("style_len", 10)
     nt = ctx.params.get("texts", 2)
     extra = ctx.params.get("extra", "none")
-    paras, raw = [], []
+    paras, raw, pre = [], [], []
     for i in range(n):
         kind = ctx.choice(f"kind{i}", 3)   # 0 text:p without style, 1 text:p with a style, 2 text:h
         style, level = None, None
         if kind == 1:
             style = ctx.fresh_chars(f"style{i}", L, 33, 126)
+            pre.append(_unambiguous_odt_style(ctx, style))
         elif kind == 2:
             level = ctx.fresh_int(f"level{i}", 1, 10)
         tk = ctx.choice(f"text{i}", nt)
         tok = f"p{i}q"
         paras.append(dt.OdtParagraph(text=_text_from_kind(tk, tok), style_name=style, outline_level=level))
         raw.append((kind, style, level, tok if tk in (1, 3) else None))
+    _assume_all(ctx, pre)
     tables, images = [], []
     if extra == "table":
         tables = [dt.OdtTable(data=[["c"]])]
@@ -453,7 +837,9 @@ def k2_doc(ctx):
         units = list(content.iterate_units())
     except Exception as e:
         units = None
-        ctx.fail("iterate_units-raised", exc=type(e).__name__, msg=str(e)[:100], text=content.main_text)
+        _require_unless_known(ctx, False, "iterate_units-raised",
+                              "C03-doc-headings-without-body-and-image-indexerror" if isinstance(e, IndexError) else None,
+                              exc=type(e).__name__, msg=str(e)[:100], text=content.main_text)
     # two readings are accepted for heading-like lines: all of them are body text (then some unit
     # body shows one of them), or all of them are headings (the reading of DocContent's docstring)
     if any(it["kind"] == "heading" and any(it["tok"] in u.get_text() for u in units) for it in items):
@@ -472,6 +858,7 @@ def k2_doc(ctx):
                         "table-line-lost-or-duplicated", text=in_text, tables=in_tabs)
 
 
+@_judged
 def _k2(ctx):
     fmt = ctx.params["fmt"]
     return {"docx": k2_docx, "odt": k2_odt, "doc": k2_doc}[fmt](ctx)
@@ -481,19 +868,31 @@ def _k2_parts(tier):
     parts = []
     N = 3 if tier == "quick" else 4
     for n in range(0, N + 1):
-        for anchor in (("none", "table", "image") if n else ("none",)):
-            parts.append({"fmt": "docx", "n": n, "anchor": anchor, "style_len": 9})
+        L = 9 if n <= 2 else 8
+        parts.append({"fmt": "docx", "n": n, "anchor": "none", "style_len": L})
+        for anchor in ("table", "image"):
+            if 1 <= n <= 2:
+                parts.append({"fmt": "docx", "n": n, "anchor": anchor, "style_len": L})
+            elif n:
+                parts += [{"fmt": "docx", "n": n, "anchor": anchor, "style_len": L, "anchor_para": a} for a in range(n)]
         parts.append({"fmt": "odt", "n": n, "extra": "none"})
         if n:
             parts.append({"fmt": "odt", "n": n, "extra": "table"})
             parts.append({"fmt": "odt", "n": n, "extra": "image"})
         for extra in ("none", "table", "image"):
             parts.append({"fmt": "doc", "n": n, "extra": extra})
-    # other style shapes / blank-padded texts on smaller documents
+    # heading / text / heading / text with a page break: the smallest shape of the title-page rule
+    parts.append({"fmt": "docx", "n": 4, "anchor": "none", "style_len": 8, "styled_mask": "1010"})
+    if tier == "thorough":
+        parts.append({"fmt": "docx", "n": 5, "anchor": "none", "style_len": 8, "styled_mask": "10110"})
+        parts.append({"fmt": "docx", "n": 5, "anchor": "none", "style_len": 8, "styled_mask": "01011"})
+        parts.append({"fmt": "docx", "n": 3, "anchor": "none", "style_len": 9})
+        parts.append({"fmt": "doc", "n": 5, "extra": "none"})
+    # other style shapes / blank-padded names and texts on smaller documents
     for L in ((8, 10) if tier == "quick" else (8, 10, 11)):
         parts.append({"fmt": "docx", "n": 2, "anchor": "none", "style_len": L})
-    parts.append({"fmt": "docx", "n": 2, "anchor": "none", "style_len": 10, "style_ws": True})
-    parts.append({"fmt": "docx", "n": 2 if tier == "quick" else 3, "anchor": "none", "style_len": 9, "texts": 4})
+    parts.append({"fmt": "docx", "n": 1, "anchor": "none", "style_len": 10, "style_ws": True})
+    parts.append({"fmt": "docx", "n": 2 if tier == "quick" else 3, "anchor": "none", "style_len": 8, "texts": 4})
     parts.append({"fmt": "odt", "n": 2 if tier == "quick" else 3, "extra": "none", "texts": 4})
     return parts
 
@@ -503,15 +902,705 @@ def _k2_targets():
     return [dt.DocxContent.iterate_units, dt.OdtContent.iterate_units, dt.DocContent.iterate_units]
 
 
+
+# =======================================================================================
+# K3  legacy PPT slide construction
+# =======================================================================================
+# record types, written from [MS-PPT] 2.13.24 (RecordType enumeration) - not read from the code
+RT_SLIDE = 0x03EE
+RT_SLIDE_PERSIST_ATOM = 0x03F3
+RT_TEXT_HEADER_ATOM = 0x0F9F
+RT_TEXT_CHARS_ATOM = 0x0FA0
+RT_TEXT_BYTES_ATOM = 0x0FA8
+RT_CSTRING = 0x0FBA
+RT_SLIDE_LIST_WITH_TEXT = 0x0FF0
+TEXT_TYPE_NOTES = 2            # [MS-PPT] 2.13.33 TextTypeEnum: Tx_TYPE_NOTES
+
+
+def _ppt():
+    import sharepoint2text.parsing.extractors.ms_legacy.ppt_extractor as ppt
+    return ppt
+
+
+class _Data(bytes):
+    """atom payload that remembers which harness record it belongs to"""
+    idx = None
+
+
+class _Node:
+    def __init__(self, rec_type, instance=0, container=False, data=b"", children=(), idx=None):
+        self.rec_type, self.instance, self.container = rec_type, instance, container
+        self.children = list(children)
+        d = _Data(data)
+        d.idx = idx
+        self.data = d
+        self.idx = idx
+
+    def size(self):
+        return 8 + (sum(c.size() for c in self.children) if self.container else len(self.data))
+
+    def serialise(self):
+        body = b"".join(c.serialise() for c in self.children) if self.container else bytes(self.data)
+        ver = 0x0F if self.container else 0x00
+        return struct.pack("<HHI", (int(self.instance) << 4) | ver, int(self.rec_type), len(body)) + body
+
+
+class _Stream:
+    """a well-formed record stream as a tree (symbolic runs): what _iter_records walks"""
+
+    def __init__(self, nodes):
+        self.nodes = list(nodes)
+
+    def __len__(self):
+        return sum(n.size() for n in self.nodes)
+
+
+def _fake_iter_records(ppt):
+    """model of ppt_extractor._iter_records on a well-formed stream: records in stream order,
+    containers are stepped into, offsets as in the byte layout.  The resynchronisation branch
+    (record length beyond the stream) is not modelled.  Concrete runs serialise the tree and use
+    the real function, which validates this model at every replay."""
+    def walk(nodes, base):
+        off = base
+        for n in nodes:
+            sub = _Stream(n.children) if n.container else n.data
+            yield ppt.Record(rec_type=n.rec_type, rec_instance=n.instance, is_container=n.container,
+                             data=sub, offset=off, end_offset=off + n.size())
+            if n.container:
+                yield from walk(n.children, off + 8)
+            off += n.size()
+
+    def it(data, start=0):
+        if isinstance(data, bytes) and len(data) < 8:
+            return                      # shorter than one record header: the real loop does not start
+        if not isinstance(data, _Stream):
+            S._unsupported("_iter_records on something that is not a harness stream")
+        yield from walk(data.nodes, 0)
+    return it
+
+
+class _Uint32Shadow:
+    """struct '<I' on an atom payload whose value is a symbolic input"""
+
+    def __init__(self, values):
+        self.values = values
+
+    def unpack_from(self, data, offset=0):
+        if isinstance(data, _Data) and data.idx in self.values:
+            return (self.values[data.idx],)
+        return struct.unpack_from("<I", data, offset)
+
+
+def k3_records(ctx):
+    """real _parse_ppt_document (+ _extract_slide_list_texts, _parse_slide_list_container,
+    _parse_containers, _extract_all_text_raw, _build_slides_from_text_blocks) and
+    PptContent.iterate_units on a record stream: one SlideListWithText container holding N atoms of
+    SYMBOLIC record type, followed by M slide containers with or without drawing text"""
+    ppt = _ppt()
+    dt = _dt()
+    N = ctx.params["N"]
+    n = ctx.choice("n_atoms", N + 1) if ctx.params.get("vary_n", True) else N
+    conts = ctx.params.get("containers", "")          # e.g. "10": two slide containers, first with text
+    inst = ctx.fresh_int("list_instance", 0, 2)
+    atoms, types, ttypes = [], [], {}
+    for i in range(n):
+        t = ctx.fresh_int(f"rec_type{i}", 0, 0xFFFF)
+        tt = ctx.fresh_int(f"text_type{i}", 0, 0xFFFFFFFF)
+        types.append(t)
+        ttypes[i] = tt
+        if ctx.concrete and t == RT_TEXT_HEADER_ATOM:
+            payload = struct.pack("<I", tt)
+        else:
+            payload = f"T{i}".encode("utf-16-le")
+        atoms.append(_Node(t, data=payload, idx=i))
+    top = [_Node(RT_SLIDE_LIST_WITH_TEXT, instance=inst, container=True, children=atoms)]
+    for j, c in enumerate(conts):
+        kids = []
+        if c == "1":
+            kids = [_Node(RT_TEXT_HEADER_ATOM, data=struct.pack("<I", 4)),
+                    _Node(RT_TEXT_CHARS_ATOM, data=f"S{j}".encode("utf-16-le"))]
+        top.append(_Node(RT_SLIDE, container=True, children=kids))
+    content = dt.PptContent()
+    try:
+        if ctx.concrete:
+            ppt._parse_ppt_document(b"".join(x.serialise() for x in top), content)
+        else:
+            with ctx.shadow(ppt, _iter_records=_fake_iter_records(ppt), _UINT32=_Uint32Shadow(ttypes),
+                            _TITLE_TYPES=S.SymSet(sorted(ppt._TITLE_TYPES)),
+                            _BODY_TYPES=S.SymSet(sorted(ppt._BODY_TYPES)),
+                            _TEXT_RECORD_TYPES=S.SymSet(sorted(ppt._TEXT_RECORD_TYPES))):
+                ppt._parse_ppt_document(_Stream(top), content)
+        units = [(_num(u), u.get_text()) for u in content.iterate_units()]
+    except Exception as e:
+        units = None
+        ctx.fail("slide-construction-raised", exc=type(e).__name__, msg=str(e)[:100])
+    # ---- oracle: [MS-PPT] 2.4.14.3 SlideListWithTextContainer = sequence of SlidePersistAtom, each
+    # followed by the text atoms of that slide; recInstance 0 = the presentation's slides
+    # (a text atom is governed by the TextHeaderAtom before it; text typed as notes is not slide body)
+    is_slide_list = _b(inst == 0)
+    cur, header_tt = 0, None
+    owner = {}                       # atom index -> slide number (1-based) for text atoms
+    for i in range(n):
+        t = types[i]
+        if _b(t == RT_SLIDE_PERSIST_ATOM):
+            cur += 1
+        elif _b(t == RT_TEXT_HEADER_ATOM):
+            header_tt = ttypes[i]
+        elif _b(t == RT_TEXT_CHARS_ATOM) or _b(t == RT_TEXT_BYTES_ATOM):
+            notes = header_tt is not None and _b(header_tt == TEXT_TYPE_NOTES)
+            if cur >= 1 and not notes:
+                owner[i] = cur
+    K = cur if is_slide_list else 0
+    M = len(conts)
+    if K >= 1 and M >= 1 and K != M:
+        ctx.assume(False)            # a package lists as many slides as it has slide containers
+    nums = [u[0] for u in units]
+    info = dict(numbers=nums, listed_slides=K, slide_containers=M, texts=[u[1] for u in units])
+    _require_unless_known(ctx, all(a < b for a, b in zip(nums, nums[1:])), "unit-numbers-repeat-or-decrease",
+                          _dup_class(nums), **info)
+    expected = K if K >= 1 else M
+    if ctx.perturb == "expect_one_more_slide":
+        expected += 1
+    if expected >= 1:
+        _require_unless_known(ctx, len(units) == expected and nums == list(range(1, expected + 1)),
+                              "slide-without-text-dropped-or-slide-invented",
+                              "C03-ppt-slide-without-text-dropped" if len(units) < expected else None,
+                              expected=expected, **info)
+    if K >= 1:
+        for i, sl in owner.items():
+            tok = f"T{i}"
+            holders = [k for k, u in enumerate(units) if tok in u[1]]
+            ctx.require(holders == [sl - 1], "slide-text-not-in-its-own-unit-only", token=tok, slide=sl, **info)
+    for j, c in enumerate(conts):
+        if c == "1":
+            tok = f"S{j}"
+            holders = [k for k, u in enumerate(units) if tok in u[1]]
+            if K >= 1:
+                ctx.require(all(k == j for k in holders), "slide-text-not-in-its-own-unit-only",
+                            token=tok, slide=j + 1, **info)
+            else:
+                ctx.require(holders == [j], "slide-text-not-in-its-own-unit-only", token=tok, slide=j + 1, **info)
+
+
+def k3_helpers(ctx):
+    """_parse_ppt_document with its three record helpers replaced by arbitrary small results
+    (fault model of DESIGN K3): which list is used, numbering, raw fallback"""
+    ppt = _ppt()
+    dt = _dt()
+    B = ctx.params.get("blocks", 2)
+
+    def blocks(prefix, k):
+        out = []
+        for b in range(k):
+            has_type = ctx.flag(f"{prefix}b{b}_typed")
+            tt = ctx.fresh_int(f"{prefix}b{b}_type", 0, 9) if has_type else None
+            out.append((f"{prefix}b{b}", tt))
+        return out
+    top = ctx.params.get("max_slides", 2) + 1
+    n1 = ctx.params["n_list"] if "n_list" in ctx.params else ctx.choice("n_list_slides", top)
+    list_slides = [blocks(f"L{s}", ctx.choice(f"L{s}_blocks", B + 1)) for s in range(n1)]
+    n2 = ctx.choice("n_container_slides", top)
+    cont_slides = [blocks(f"C{s}", 1 + ctx.choice(f"C{s}_blocks", B)) for s in range(n2)]
+    raw_mode = ctx.choice("raw", 3)        # 0 nothing, 1 every text of the stream again, 2 one extra text
+    all_toks = [t for sl in list_slides + cont_slides for t, _ in sl]
+    raw = [[], list(all_toks), ["RAW"]][raw_mode]
+    sets = {} if ctx.concrete else dict(_TITLE_TYPES=S.SymSet(sorted(ppt._TITLE_TYPES)),
+                                        _BODY_TYPES=S.SymSet(sorted(ppt._BODY_TYPES)))
+    content = dt.PptContent()
+    with ctx.shadow(ppt, **sets):
+        mk = lambda sl: [ppt._make_text_block(t, tt) for t, tt in sl]
+        with ctx.stub(ppt, _extract_slide_list_texts=lambda d: [mk(sl) for sl in list_slides],
+                      _parse_containers=lambda d: {"slides": [mk(sl) for sl in cont_slides], "notes": [], "master": []},
+                      _extract_all_text_raw=lambda d: list(raw)):
+            try:
+                ppt._parse_ppt_document(b"", content)
+                units = [(_num(u), u.get_text()) for u in content.iterate_units()]
+            except Exception as e:
+                units = None
+                ctx.fail("slide-construction-raised", exc=type(e).__name__, msg=str(e)[:100])
+    nums = [u[0] for u in units]
+    info = dict(numbers=nums, list_slides=n1, container_slides=n2, raw=raw_mode)
+    _require_unless_known(ctx, all(a < b for a, b in zip(nums, nums[1:])), "unit-numbers-repeat-or-decrease",
+                          _dup_class(nums), **info)
+    used = list_slides if n1 else cont_slides
+    exp = len(used) + (1 if ctx.perturb == "expect_one_more_slide" else 0)
+    if exp:
+        _require_unless_known(ctx, nums == list(range(1, exp + 1)), "slide-without-text-dropped-or-slide-invented",
+                              "C03-ppt-slide-without-text-dropped" if len(nums) < exp else None,
+                              expected=exp, **info)
+    for s, sl in enumerate(used):
+        for tok, tt in sl:
+            if tt is not None and _b(tt == TEXT_TYPE_NOTES):
+                continue
+            holders = [k for k, u in enumerate(units) if tok in u[1].split("\n")]
+            ctx.require(holders == [s], "slide-text-not-in-its-own-unit-only", token=tok, slide=s + 1, **info)
+
+
+def _dup_class(nums):
+    """signature of the raw-text fallback: slides 1..k and then one more unit numbered 1"""
+    if len(nums) >= 2 and nums[-1] == 1 and nums[:-1] == list(range(1, len(nums))):
+        return "C03-ppt-raw-fallback-duplicate-slide-1"
+    return None
+
+
+@_judged
+def _k3(ctx):
+    return {"records": k3_records, "helpers": k3_helpers}[ctx.params["driver"]](ctx)
+
+
+def _k3_parts(tier):
+    N = 3 if tier == "quick" else 4
+    if tier == "quick":
+        parts = [{"driver": "helpers", "blocks": 1, "max_slides": 2}]
+    else:
+        parts = [{"driver": "helpers", "blocks": 1, "max_slides": 3, "n_list": k} for k in range(4)]
+    for conts in ("", "1", "0", "11", "10", "01"):
+        parts.append({"driver": "records", "N": N, "containers": conts})
+    if tier == "thorough":
+        parts.append({"driver": "records", "N": 3, "containers": "111"})
+        parts.append({"driver": "records", "N": 3, "containers": "101"})
+    return parts
+
+
+def _k3_targets():
+    ppt = _ppt()
+    dt = _dt()
+    return [ppt._parse_ppt_document, ppt._build_slides_from_text_blocks, ppt._extract_slide_list_texts,
+            ppt._parse_slide_list_container, ppt._parse_containers, ppt._extract_all_text_raw,
+            ppt._make_text_block, dt.PptContent.iterate_units, dt.PptSlideContent.text_combined.fget]
+
+
+
+# =======================================================================================
+# K4  mbox split arithmetic
+# =======================================================================================
+
+def _mbox():
+    import sharepoint2text.parsing.extractors.mail.mbox_email_extractor as m
+    return m
+
+
+class _FakeMatch:
+    def __init__(self, s, e):
+        self._s, self._e = s, e
+
+    def start(self, g=0):
+        return self._s
+
+    def end(self, g=0):
+        return self._e
+
+
+class _FakePattern:
+    """MBOX_FROM_PATTERN stand-in: finditer yields the harness' separator positions"""
+
+    def __init__(self, matches):
+        self.matches = matches
+
+    def finditer(self, data, *a):
+        return iter(self.matches)
+
+
+class _SymData:
+    """mailbox bytes of symbolic length in which only the positions matter: a slice is a span
+    (start, stop), rstrip(b'\r\n') shortens a span that ends at the end of gap i by that gap's
+    symbolic count of trailing CR/LF bytes, truth is non-emptiness"""
+
+    def __init__(self, length, gap_ends, trailing, a=None, b=None):
+        self.n, self.gap_ends, self.trailing = length, gap_ends, trailing
+        self.a = 0 if a is None else a
+        self.b = length if b is None else b
+
+    def sym_len(self):
+        return self.b - self.a
+
+    def __bool__(self):
+        return _b(self.b > self.a)
+
+    def __getitem__(self, sl):
+        if not isinstance(sl, slice) or sl.step not in (None, 1):
+            S._unsupported("mailbox bytes: only contiguous slices are modelled")
+        a = self.a if sl.start is None else self.a + sl.start
+        b = self.b if sl.stop is None else self.a + sl.stop
+        return _SymData(self.n, self.gap_ends, self.trailing, a, b)
+
+    def rstrip(self, chars=None):
+        if chars != b"\r\n":
+            S._unsupported("mailbox bytes: rstrip(%r)" % (chars,))
+        for end, t in zip(self.gap_ends, self.trailing):
+            if _b(self.b == end):
+                nb = self.b - t
+                if _b(nb < self.a):
+                    nb = self.a
+                return _SymData(self.n, self.gap_ends, self.trailing, self.a, nb)
+        return self
+
+
+def _len_shadow(x):
+    return x.sym_len() if isinstance(x, _SymData) else len(x)
+
+
+def k4_mbox(ctx):
+    m = _mbox()
+    k = ctx.params["k"]
+    hi = ctx.params.get("max_len", 60)
+    L = ctx.fresh_int("length", 0, hi)
+    starts, ends, pre = [], [], []
+    prev = 0
+    for i in range(k):
+        s_ = ctx.fresh_int(f"sep{i}_start", 0, hi)
+        e_ = ctx.fresh_int(f"sep{i}_end", 0, hi)
+        pre += [s_ >= prev, e_ > s_, e_ <= L]
+        starts.append(s_)
+        ends.append(e_)
+        prev = e_
+    gap_ends = starts[1:] + [L]
+    trailing = []
+    for i in range(k):
+        t = ctx.fresh_int(f"gap{i}_trailing_newlines", 0, hi)
+        pre.append(t <= gap_ends[i] - ends[i])
+        trailing.append(t)
+    _assume_all(ctx, pre)
+    pat = _FakePattern([_FakeMatch(a, b) for a, b in zip(starts, ends)])
+    if ctx.concrete:
+        # real bytes: 'p' preamble, separators 'F..F\n', gaps 'm..m' + CR/LF tail
+        buf = bytearray(b"p" * L)
+        bodies = []
+        for i in range(k):
+            buf[starts[i]:ends[i]] = b"F" * (ends[i] - starts[i] - 1) + b"\n"
+            g = gap_ends[i] - ends[i]
+            tail = (b"\r\n" * trailing[i])[:trailing[i]] if i % 2 else b"\n" * trailing[i]
+            body = bytes([ord("a") + i]) * (g - trailing[i])
+            buf[ends[i]:gap_ends[i]] = body + tail
+            bodies.append(body)
+        with ctx.stub(m, MBOX_FROM_PATTERN=pat):
+            got = m._split_mbox_messages(bytes(buf))
+        exp = [b for b in bodies if b]
+        if ctx.perturb == "expect_separator_line_in_message":
+            exp = [b"F" + b for b in exp]
+        ctx.require(got == exp, "messages-are-not-the-gaps-between-separators", got=[x[:12] for x in got],
+                    expected=[x[:12] for x in exp])
+        return
+    data = _SymData(L, gap_ends, trailing)
+    with ctx.stub(m, MBOX_FROM_PATTERN=pat), ctx.shadow(m, len=_len_shadow):
+        try:
+            got = m._split_mbox_messages(data)
+        except Exception as e:
+            got = None
+            ctx.fail("split-raised", exc=type(e).__name__, msg=str(e)[:100])
+    # oracle: message i = bytes after separator i up to the next separator (or the end), without
+    # the CR/LF tail; empty ones do not count; order kept; nothing of a separator line inside
+    j = 0
+    for i in range(k):
+        a = ends[i]
+        if ctx.perturb == "expect_separator_line_in_message":
+            a = starts[i]
+        b = gap_ends[i] - trailing[i]
+        if not _b(b > ends[i]):
+            continue
+        ctx.require(j < len(got), "message-lost", message=i)
+        sp = got[j]
+        ok = z3.And(_zint(sp.a) == _zint(a), _zint(sp.b) == _zint(b))
+        ctx.require(ok, "messages-are-not-the-gaps-between-separators", message=i)
+        j += 1
+    ctx.require(j == len(got), "message-invented", got=len(got), expected=j)
+
+
+# =======================================================================================
+# K5  PPTX slide order
+# =======================================================================================
+_REL_PREFIX = "http://schemas.openxmlformats.org/officeDocument/2006/relationships/"
+_PKG_REL_NS = "http://schemas.openxmlformats.org/package/2006/relationships"
+_P_NS = "http://schemas.openxmlformats.org/presentationml/2006/main"
+_A_NS = "http://schemas.openxmlformats.org/drawingml/2006/main"
+_R_NS = "http://schemas.openxmlformats.org/officeDocument/2006/relationships"
+_TARGET_KINDS = ["slides/%s", "/ppt/slides/%s", "./slides/%s", "../ppt/slides/%s", "../slides/%s"]
+_TARGET_KIND_NAMES = ["relative", "absolute", "dot-relative", "dotdot-into-ppt", "dotdot-out-of-ppt"]
+
+
+def _opc_resolve(source_part, target):
+    """ECMA-376 Part 2 (OPC) §8.3: a relationship target is a URI reference resolved against the
+    source part's name (RFC 3986 §5.2); returns the ZIP item name of the target part"""
+    if target.startswith("/"):
+        path = target
+    else:
+        path = source_part.rsplit("/", 1)[0] + "/" + target
+    segs = []
+    for seg in path.split("/"):
+        if seg == "..":
+            if segs:
+                segs.pop()
+        elif seg and seg != ".":
+            segs.append(seg)
+    return "/".join(segs)
+
+
+def _pptx_mod():
+    import sharepoint2text.parsing.extractors.ms_modern.pptx_extractor as px
+    return px
+
+
+def _slide_xml(token):
+    return (f'<?xml version="1.0" encoding="UTF-8"?><p:sld xmlns:p="{_P_NS}" xmlns:a="{_A_NS}" xmlns:r="{_R_NS}">'
+            f'<p:cSld><p:spTree><p:nvGrpSpPr/><p:grpSpPr/><p:sp><p:nvSpPr><p:cNvPr id="2" name="t"/><p:cNvSpPr/>'
+            f'<p:nvPr/></p:nvSpPr><p:spPr/><p:txBody><a:bodyPr/><a:p><a:r><a:t>{token}</a:t></a:r></a:p></p:txBody>'
+            f'</p:sp></p:spTree></p:cSld></p:sld>')
+
+
+@_judged
+def k5_slide_order(ctx):
+    import xml.etree.ElementTree as ET
+    px = _pptx_mod()
+    R = ctx.params["rels"]
+    M = ctx.params["entries"]
+    kinds = ctx.params.get("target_kinds", 3)
+    ids = ["rId1", "rId2", "rId3", "rId4"]
+    n_rels = ctx.choice("n_rels", R + 1)
+    rels = []
+    for j in range(n_rels):
+        kind = ctx.choice(f"rel{j}_target_kind", kinds)
+        if ctx.params.get("symbolic_type", True):
+            suffix = ctx.fresh_chars(f"rel{j}_type_suffix", ctx.params.get("suffix_len", 5), 65, 122)
+        else:
+            suffix = "slide"
+        fname = f"slide{j + 1}.xml"
+        rels.append({"id": ids[j], "type": _REL_PREFIX + suffix, "suffix": suffix,
+                     "target": _TARGET_KINDS[kind] % fname, "kind": kind, "file": fname})
+    n_entries = ctx.choice("n_entries", M + 1)
+    entries = [ids[ctx.choice(f"sldId{e}_rid", n_rels + 1)] if n_rels else ids[3] for e in range(n_entries)]
+    if len(set(entries)) != len(entries):
+        ctx.assume(False)            # a slide is listed once (sldId/@r:id values are distinct)
+    # the two cached XML roots exactly as the context holds them
+    rels_root = ET.Element(f"{{{_PKG_REL_NS}}}Relationships")
+    for r in rels:
+        ET.SubElement(rels_root, f"{{{_PKG_REL_NS}}}Relationship",
+                      {"Id": r["id"], "Type": r["type"], "Target": r["target"]})
+    pres = ET.Element(f"{{{_P_NS}}}presentation")
+    ET.SubElement(pres, f"{{{_P_NS}}}sldMasterIdLst")
+    lst = ET.SubElement(pres, f"{{{_P_NS}}}sldIdLst")
+    for e, rid in enumerate(entries):
+        ET.SubElement(lst, f"{{{_P_NS}}}sldId", {"id": str(256 + e), f"{{{_R_NS}}}id": rid})
+
+    class Holder:
+        _presentation_rels_root = rels_root
+        _presentation_root = pres
+    try:
+        order = px._PptxContext._compute_slide_order(Holder())
+    except Exception as e:
+        order = None
+        ctx.fail("slide-order-raised", exc=type(e).__name__, msg=str(e)[:100])
+    # ---- oracle: presentation.xml's sldIdLst gives the order (ECMA-376 Part 1 §19.2.1.34), each
+    # entry names a relationship of type .../slide whose target resolves (OPC) to the slide part
+    by_id = {r["id"]: r for r in rels}
+    is_slide = {r["id"]: _b(_cs(r["suffix"]) == "slide") for r in rels}
+    exp = []
+    for rid in entries:
+        r = by_id.get(rid)
+        if r is not None and is_slide[rid]:
+            exp.append(r)
+    if ctx.perturb == "expect_rels_file_order":
+        exp = sorted(exp, key=lambda r: r["id"])
+    judged_files = {r["file"] for r in rels if is_slide[r["id"]]}
+    got = [p for p in order if p.rsplit("/", 1)[-1] in judged_files]
+    info = dict(order=list(order), entries=entries,
+                rels=[[r["id"], r["target"], str(r["suffix"])] for r in rels])
+    units = None
+    if ctx.concrete:
+        units = _k5_public(ctx, rels, entries)
+        info["read_pptx_units"] = units
+    ctx.require([p.rsplit("/", 1)[-1] for p in got] == [r["file"] for r in exp],
+                "slide-order-is-not-sldIdLst-order", **info)
+    for p, r in zip(got, exp):
+        want = _opc_resolve("/ppt/presentation.xml", r["target"])
+        _require_unless_known(ctx, p == want, "slide-part-name-is-not-the-resolved-target",
+                              "C03-pptx-relationship-target-not-resolved" if r["kind"] != 0 else None,
+                              got=p, expected=want, target_kind=_TARGET_KIND_NAMES[r["kind"]], **info)
+    if ctx.concrete and all(str(r["suffix"]) == "slide" for r in rels):
+        # the same package as a real .pptx through the public reader: unit k = slide k
+        ctx.require(isinstance(units, list), "public-api:read_pptx-raised", **info)
+        ctx.require([n for n, _ in units] == list(range(1, len(exp) + 1)), "public-api:unit-numbers", **info)
+        for (n_, t), r in zip(units, exp):
+            ctx.require("TOK" + r["file"][5] in t, "public-api:unit-k-does-not-hold-slide-k", **info)
+
+
+def _k5_public(ctx, rels, entries):
+    """replay only: the same package as a real .pptx through sharepoint2text.read_pptx"""
+    import zipfile
+    px = _pptx_mod()
+    buf = io.BytesIO()
+    with zipfile.ZipFile(buf, "w") as z:
+        z.writestr("[Content_Types].xml", '<?xml version="1.0"?><Types xmlns="http://schemas.openxmlformats.org/'
+                   'package/2006/content-types"><Default Extension="xml" ContentType="application/xml"/>'
+                   '<Default Extension="rels" ContentType="application/vnd.openxmlformats-package.relationships+xml"/>'
+                   '</Types>')
+        z.writestr("_rels/.rels", f'<?xml version="1.0"?><Relationships xmlns="{_PKG_REL_NS}"><Relationship Id="rId1" '
+                   f'Type="{_REL_PREFIX}officeDocument" Target="ppt/presentation.xml"/></Relationships>')
+        z.writestr("ppt/_rels/presentation.xml.rels",
+                   f'<?xml version="1.0"?><Relationships xmlns="{_PKG_REL_NS}">' + "".join(
+                       f'<Relationship Id="{r["id"]}" Type="{r["type"]}" Target="{r["target"]}"/>' for r in rels) +
+                   '</Relationships>')
+        z.writestr("ppt/presentation.xml",
+                   f'<?xml version="1.0"?><p:presentation xmlns:p="{_P_NS}" xmlns:r="{_R_NS}"><p:sldIdLst>' + "".join(
+                       f'<p:sldId id="{256 + e}" r:id="{rid}"/>' for e, rid in enumerate(entries)) +
+                   '</p:sldIdLst></p:presentation>')
+        for r in rels:
+            z.writestr(_opc_resolve("/ppt/presentation.xml", r["target"]), _slide_xml("TOK" + r["file"][5]))
+    buf.seek(0)
+    try:
+        doc = next(px.read_pptx(buf, "x.pptx"))
+        return [(_num(u), u.get_text()) for u in doc.iterate_units()]
+    except Exception as e:
+        return "%s: %s" % (type(e).__name__, str(e)[:100])
+
+
+def _k5_parts(tier):
+    if tier == "quick":
+        return [{"rels": 2, "entries": 2, "target_kinds": 3},
+                {"rels": 3, "entries": 3, "target_kinds": 2, "symbolic_type": False},
+                {"rels": 1, "entries": 1, "target_kinds": 5, "symbolic_type": False}]
+    return [{"rels": 3, "entries": 3, "target_kinds": 2},
+            {"rels": 2, "entries": 2, "target_kinds": 5},
+            {"rels": 3, "entries": 3, "target_kinds": 3, "symbolic_type": False},
+            {"rels": 2, "entries": 2, "target_kinds": 2, "suffix_len": 6}]
+
+
+def _k1_parts_algebra(tier):
+    return [p for p in _k1_parts(tier) if p["type"] not in ("RtfContent", "EmailContent*")]
+
+
+def _k1_parts_symbolic(tier):
+    return [p for p in _k1_parts(tier) if p["type"] in ("RtfContent", "EmailContent*")]
+
+
 KERNELS = [
-    Kernel("K2", "heading-section units: numbering, coverage and section membership of every body paragraph",
-           _k2, targets=_k2_targets, parts=_k2_parts,
-           perturb=[("expect_flat_heading_path", {"fmt": "docx", "n": 3, "anchor": "none", "style_len": 9})],
+    Kernel("K1", "unit algebra of every content type of the registry: one unit per source element, number = source "
+                 "position, unit k holds element k only, full text = trimmed newline-join of the unit texts",
+           _k1, targets=_k1_targets, parts=_k1_parts_algebra, strength="structure",
+           bounds={"quick": {}, "thorough": {}},
+           perturb=[("expect_zero_based", {"type": "PdfContent", "N": 2}),
+                    ("expect_untrimmed_join", {"type": "XlsxContent", "N": 2})],
+           symbolic=["stored slide_number / chapter_number of PPTX, ODP, PPT, EPUB elements (strictly increasing ints, "
+                     "compared symbolically with the unit numbers)"],
+           choices=["number of pages/slides/sheets/chapters 0..3 (thorough 0..4)",
+                    "text of every element from {'', ' ', 'A<i>', 'B<i>\\n', '\\n C<i>'}",
+                    "image-only page, formula on a slide (inline/display), sheet name present, table-only sheet, "
+                    "slide title/body present, e-mail plain and HTML body"],
+           assumptions=["stored slide / chapter numbers are strictly increasing and >= 1 (what the extractors write)",
+                        "content types are taken from serialization._get_type_registry(); a type without a model in "
+                        "this module fails the part '<registry>'"],
+           outside=["how extractors fill the objects (page loop over pypdf, EPUB spine over the zip, sheet readers): "
+                    "C03/K3-K5 cover ppt, mbox, pptx; the rest belongs to third-party parsers",
+                    "get_full_text of doc/docx/odt/xls/ppt/rtf is not derived from units by documentation: only "
+                    "'every unit token shows up in order' is checked for them"],
+           timeout={"quick": 100, "thorough": 1100}),
+    Kernel("K1s", "RTF pages and e-mail bodies as SYMBOLIC strings: blank-page skipping keeps source positions, "
+                  "e-mail always yields one unit (plain, else HTML, else empty)",
+           _k1, targets=lambda: [_dt().RtfContent.iterate_units, _dt().RtfContent.get_full_text,
+                                 _dt().EmailContent.iterate_units, _dt().EmailContent.__post_init__],
+           parts=_k1_parts_symbolic, strength="data",
+           perturb=[("expect_blank_pages_kept", {"type": "RtfContent", "n": 2, "page_len": 2, "mode": "pages"}),
+                    ("expect_html_preferred", {"type": "EmailContent*", "plain_len": 2, "html_len": 2})],
+           symbolic=["every character of every RTF page (TAB LF VT FF CR, printable ASCII), 0..3 pages of 2 chars "
+                     "(thorough: 0..4 pages, 3 chars)", "every character of the e-mail plain / HTML body (lengths 0..3)"],
+           choices=["full_text present next to pages", "flow mode: full text / paragraph fallback from the alphabet"],
+           assumptions=["RTF reading (DESIGN): a page that is blank may be skipped, every other page yields exactly "
+                        "one unit numbered by its 1-based position and holding exactly that page's text",
+                        "characters FS..US (0x1c-0x1f), which python strips as white space, are left out"],
+           outside=["splitting RTF into pages (\\page handling in the RTF parser: C02/K4)"],
+           timeout={"quick": 100, "thorough": 1100}),
+    Kernel("K2", "heading-section units of DOCX / ODT / DOC: numbers 1..m, every body paragraph in exactly one unit "
+                 "and in the unit of its own section, in order; heading text only in heading paths and in at least one",
+           _k2, targets=_k2_targets, parts=_k2_parts, strength="data",
+           perturb=[("expect_flat_heading_path", {"fmt": "docx", "n": 3, "anchor": "none", "style_len": 8})],
+           stubs=["data_types.re -> model of the one compiled pattern ^heading\\s*(\\d+)\\b (IGNORECASE) on bounded "
+                  "symbolic strings; any other pattern is reported as unsupported; concrete replays use the real re",
+                  "data_types.int -> decimal value of a symbolic digit string"],
+           symbolic=["DOCX: every character of every paragraph style name (8..11 printable ASCII chars: the solver "
+                     "finds 'heading 9', 'HEADING99', ... itself), hence the heading level; has_page_break of every "
+                     "paragraph", "ODT: text:outline-level of every heading (1..10), every character of every "
+                     "paragraph style name (10 chars; 'Table_20_...' cell styles are found by the solver)"],
+           choices=["paragraph has a style / is text:p, styled text:p or text:h", "paragraph text from {'', token} "
+                    "(+ blank, blank-padded token in the small parts)", "one table or image anchored at a paragraph "
+                    "(DOCX), one table / image in the document (ODT, DOC)", "DOC: every line from {'', blank, token, "
+                    "padded token, 'Chapter N', 'Subsection N', 'intro', table line}, LF / CRLF"],
+           assumptions=["DOCX style names are either certainly heading styles ('heading', blanks, digits - any case) or "
+                        "do not begin with 'heading'; other names ('Heading 1 Char', 'heading1x') are not judged",
+                        "ODT style names either begin with 'Table_20_' (table-cell paragraphs, text reported through "
+                        "the table) or do not contain 'Table'", "heading texts are distinct tokens",
+                        "DOC: 'Chapter N' / 'Subsection N' / 'intro' lines may be filed as headings or as body text "
+                        "(both readings accepted); token lines are body text under every reading",
+                        "a page break may split a section into several units; empty units are allowed"],
+           outside=["more than 3 (thorough 4-5) paragraphs; non-ASCII style names; nested tables / several anchors",
+                    "which unit a table or image is attached to (C13/C14)"],
+           timeout={"quick": 100, "thorough": 1100}),
+    Kernel("K3", "legacy PPT: one unit per slide of the SlideListWithText (else per slide container), numbered by "
+                 "position without repeats, slide text in its own unit only",
+           _k3, targets=_k3_targets, parts=_k3_parts, strength="data",
+           perturb=[("expect_one_more_slide", {"driver": "records", "N": 2, "containers": ""})],
+           stubs=["records driver, symbolic runs: _iter_records -> walk over a harness record tree (stream order, "
+                  "containers stepped into, byte-layout offsets); _UINT32.unpack_from -> the symbolic text type; "
+                  "replays serialise the tree and run the REAL _iter_records / struct",
+                  "helpers driver: _extract_slide_list_texts / _parse_containers / _extract_all_text_raw -> arbitrary "
+                  "small results (fault model)"],
+           symbolic=["record type of every atom inside the SlideListWithText container (0..0xFFFF: the solver finds "
+                     "SlidePersistAtom, TextHeaderAtom, TextCharsAtom, TextBytesAtom, CString itself)",
+                     "recInstance of the container (0 slides, 1 master, 2 notes)",
+                     "text type of every TextHeaderAtom (32 bit; title/body/notes sets as solver-decided membership)",
+                     "helpers driver: text type of every block"],
+           choices=["number of atoms 0..3 (thorough 0..4)", "0..2 (thorough 3) slide containers with / without drawing text",
+                    "helpers driver: 0..2 (3) list slides x 0..2 (3) container slides x 0..1 blocks x raw-text mode"],
+           assumptions=["well-formed record stream (the resynchronisation branch of _iter_records is C01/K2)",
+                        "a package lists as many slides as it has slide containers (when both are present)",
+                        "text governed by a notes-type TextHeaderAtom is not slide body text"],
+           outside=["OLE container, PersistDirectory order of slide containers, text inside escher client data "
+                    "beyond one text atom per container; not replayed through read_ppt (no OLE writer): unit-level"],
+           timeout={"quick": 100, "thorough": 1100}),
+    Kernel("K4", "mbox split: messages are exactly the gaps between separator lines, in order, without the CR/LF "
+                 "tail; empty gaps do not count",
+           k4_mbox, targets=lambda: [_mbox()._split_mbox_messages], strength="data",
+           parts=lambda tier: [{"k": k} for k in range(0, (4 if tier == "quick" else 7))],
+           perturb=[("expect_separator_line_in_message", {"k": 2})],
+           stubs=["MBOX_FROM_PATTERN -> finditer yields the harness' separator positions (the regex itself: C16)",
+                  "symbolic runs: the mailbox is a length-only byte string (slices are spans, rstrip(b'\\r\\n') removes "
+                  "the gap's symbolic CR/LF tail); replays build real bytes and run the real slicing",
+                  "mbox_email_extractor.len -> symbolic length"],
+           symbolic=["mailbox length (0..60)", "start and end of each of 0..3 (thorough 0..6) separator lines "
+                     "(ordered, non-overlapping, non-empty)", "number of trailing CR/LF bytes of every gap"],
+           assumptions=["separator matches are ordered and do not overlap (what re.finditer guarantees)"],
+           outside=["which lines the regex accepts as separators (C16)", "parsing of each message"],
+           timeout={"quick": 100, "thorough": 1100}),
+    Kernel("K5", "PPTX slide order follows sldIdLst; each slide part name is the OPC-resolved relationship target",
+           k5_slide_order, targets=lambda: [_pptx_mod()._PptxContext._compute_slide_order], strength="data",
+           parts=_k5_parts, perturb=[("expect_rels_file_order", {"rels": 2, "entries": 2, "target_kinds": 1})],
+           symbolic=["last path segment of every relationship Type URI (5 letters; 6 in thorough): the solver "
+                     "decides the code's substring test 'slide' in type"],
+           choices=["0..2 (3) relationships with ids rId1..rId3", "target form: slides/x, /ppt/slides/x, ./slides/x, "
+                    "../ppt/slides/x, ../slides/x", "0..2 (3) distinct sldId entries, each naming a relationship or a "
+                    "dangling id"],
+           assumptions=["a relationship is a slide relationship iff its type is exactly .../relationships/slide; "
+                        "entries naming relationships of other types are not judged",
+                        "reference: ECMA-376 Part 2 target resolution (RFC 3986) against /ppt/presentation.xml",
+                        "replays also build the package as a real .pptx and run sharepoint2text.read_pptx"],
+           outside=["strict-namespace packages (purl.oclc.org type URIs)", "shape order inside a slide (C02/K6)"],
            timeout={"quick": 100, "thorough": 1100}),
 ]
 
 META = {
-    "level_text": "",
-    "level_note": "",
-    "technique": "",
+    "level_text": "The real iterate_units / get_full_text of all 17 content types, the heading-section builders of "
+                  "DOCX/ODT/DOC, the legacy-PPT slide construction, the mbox splitter and the PPTX slide-order function "
+                  "are executed on bounded symbolic state: paragraph style names, outline levels, page-break flags, PPT "
+                  "record types / text types, separator positions and relationship types are solver variables, so the "
+                  "code's own comparisons split the cases; on every feasible path an oracle written from the property "
+                  "text and the file-format specifications (unit numbers = source positions without repeats, every "
+                  "piece of body text in exactly the unit of its section / slide / page, full text = trimmed join) is "
+                  "decided. Eight defect classes are found, replayed on the untouched code (three also through "
+                  "read_docx / read_pptx on real packages) and recorded as known findings.",
+    "level_note": "Bounds: <= 3 (thorough 4-5) elements per document, style names of 8-11 ASCII characters, <= 3 (5) PPT "
+                  "atoms, <= 3 (6) mbox separators. Trusted: the hand-written model of one regular expression and of "
+                  "_iter_records on well-formed streams (both re-validated by concrete replay of passing paths and of "
+                  "every counterexample). K1 texts come from a finite alphabet (str.join cannot carry symbolic strings); "
+                  "outside: third-party parsers that fill the objects.",
+    "technique": "symbolic execution of the repository functions on z3-backed proxies (symrun: SymInt, SymBool, CharStr "
+                 "with per-character variables, set membership as disjunctions), per-path SMT queries against reference "
+                 "predicates, structure enumeration by solver-free choices, concrete replay through the public readers",
 }
